@@ -12,7 +12,7 @@
      concrete instances used by the correspondence.
    * np.random.permutation / np.random.choice are INPUTS: a list of samples (pi, y0).
    * loops carry explicit fuel derived from lengths; exhaustion gives None. *)
-From Coq Require Import ZArith List Bool Arith Lia.
+From Coq Require Import ZArith QArith List Bool Arith Lia.
 From Persim Require Import Spec.MGH.
 Import ListNotations.
 Open Scope Z_scope.
@@ -266,4 +266,12 @@ Definition estimate2 (pick : oracle) (DX DY : mat) (s1 s2 : list (list nat * nat
   match find_lb pick DX DY with
   | None => None
   | Some lb => match find_ub DX DY s1 s2 lb with None => None | Some ub => Some (lb, ub) end
+  end.
+
+(* what estimate returns: 0.5 * double_lb, 0.5 * double_ub *)
+Definition half (z : Z) : Q := Qmult (inject_Z z) (1 # 2).
+Definition estimate (pick : oracle) (DX DY : mat) (s1 s2 : list (list nat * nat)) : option (Q * Q) :=
+  match estimate2 pick DX DY s1 s2 with
+  | Some (lb, ub) => Some (half lb, half ub)
+  | None => None
   end.
